@@ -43,10 +43,19 @@ def _wd(name):
     return vlib.workdir("committx-%s%s" % (name, "-private" if PRIVATE else ""))
 
 
-def leg_a(d, tier, timeout):
+def policy_bounds(binpath, d):
+    """The contest-delay bounds of the real policy and real setup_channel probes around them (judged by an
+    ASSUME of MC_CommitTx, which resolves the matrix' delay names min / mid / max against this file)."""
+    bf = os.path.join(d, "bounds.json")
+    vlib.run_bin(binpath, ["bounds", "--out", bf], timeout=600)
+    return bf
+
+
+def leg_a(d, tier, timeout, bounds_file):
     """TLC: enumerate the matrix, write the cases, model-check every case on the code-shaped model."""
     cases = os.path.join(d, "cases.ndjson")
-    r = vlib.tlc("MC_CommitTx", os.path.join(vlib.SPEC, "MC_CommitTx.cfg"), env=dict(_sw(), CT_TIER=tier, CT_OUT=cases),
+    r = vlib.tlc("MC_CommitTx", os.path.join(vlib.SPEC, "MC_CommitTx.cfg"),
+                 env=dict(_sw(), CT_TIER=tier, CT_OUT=cases, CT_BOUNDS=bounds_file),
                  workers=8, timeout=timeout, extra=["-continue", "-seed", str(vlib.seed())],
                  name="mc-committx-%s%s" % (tier, "-private" if PRIVATE else ""))
     m = re.search(r'<<"CT_MATRIX", (\d+), (\d+)>>', r["out"])
@@ -98,7 +107,11 @@ def finding_key(v):
     breaks, the kind of mutation, the edge class of the setup, the history when it is not a fresh commitment"""
     kinds = "+".join(sorted(v["kinds"]))
     rules = "+".join(sorted(v["rules"])) or "-"
-    edge = "wide_vout" if v["S"]["fo"]["i"] > 65535 else "-"
+    # the holder-selected delay is the one inside the counterparty's commitment; the other delay names the class
+    # only when the first is an ordinary value
+    dn = [(f, v["S"].get(n)) for f, n in (("hdelay", "hdn"), ("cdelay", "cdn")) if v["S"].get(n) in ("min", "max")]
+    edges = (["wide_vout"] if v["S"]["fo"]["i"] > 65535 else []) + ["%s=%s" % x for x in dn[:1]]
+    edge = ",".join(edges) or "-"
     return "%s:%s:%s:%s%s" % (kinds, rules, _mut_name(v), edge, "" if v["hist"] == "fresh" else ":" + v["hist"])
 
 
@@ -144,7 +157,8 @@ def run(pid, tier):
     d = _wd(tier)
 
     # ---- leg A: the matrix, and the model on it
-    a = leg_a(d, tier, 600 if quick else 3000)
+    bf = policy_bounds(binpath, d)
+    a = leg_a(d, tier, 600 if quick else 3000, bf)
     hyp = None
     if a["violated"]:
         hyp = {"invariants": sorted(set(a["violated"])), "note": "the code-shaped MODEL violates the property on a case of the matrix: "
@@ -206,6 +220,8 @@ def run(pid, tier):
                 "transaction, witness scripts) records counted by TLC; non-trivial = not the unmutated canonical request",
         "exhaustive": True,
         "switches": SWITCHES,
+        "contest_delay_bounds": {k: v for k, v in json.load(open(bf)).items() if k != "probes"},
+        "setup_channel_probes": len(json.load(open(bf))["probes"]),
         "impl_stricter": rep["nstricter"],
         "spec_divergences": (rep["divergences"] + rep["base_divergences"])[:10],
         "model_only_counterexample": hyp if (hyp and not viols) else None,
@@ -229,7 +245,9 @@ def run(pid, tier):
                          "other source), so a change of a main output's value is another content, not a forgery; fee and "
                          "trimming are C05's",
                          "commitment types static_remotekey and anchors_zero_fee_htlc (the others are refused by "
-                         "setup_channel); commitment numbers 0..3, at most 4 HTLCs, default regtest policy",
+                         "setup_channel); commitment numbers 0..3, at most 4 HTLCs, default regtest policy; both contest "
+                         "delays at the smallest / an ordinary (144) / the largest value setup_channel accepts (bounds read "
+                         "from the real policy, min-1 and max+1 shown refused by real setup_channel calls)",
                          "TLC and the Json/IOUtils community modules"],
                         time.time() - t0, unknown + known)
     return code
